@@ -562,6 +562,66 @@ func (g *gateX) run() {
 	}
 	c.Fact("gate.async_guard", map[string]string{"server": asyncGuard("ServerSession"), "client": asyncGuard("ClientSession")})
 
+	// ---- custom methods (stream `custom`, Gate.Custom): the registration writes into Server.receiveMethods,
+	// the server and every session hand out THAT table, and the HTTP pre-validation of servePOST fetches it
+	// for every message (inside the loop over the POST's messages), not once per connection
+	custom := map[string]any{}
+	var regWrites []string
+	if fd := c.Func("mcp", "", "AddReceivingCustomMethod"); fd != nil {
+		ast.Inspect(fd.Body, func(n ast.Node) bool {
+			if as, ok := n.(*ast.AssignStmt); ok && strings.Contains(c.Src(as), "receiveMethods") {
+				regWrites = append(regWrites, c.Src(as))
+			}
+			return true
+		})
+	} else {
+		g.errf("AddReceivingCustomMethod not found")
+	}
+	custom["register"] = regWrites
+	returns := func(fd *ast.FuncDecl) []string {
+		var out []string
+		if fd != nil {
+			ast.Inspect(fd.Body, func(n ast.Node) bool {
+				if r, ok := n.(*ast.ReturnStmt); ok {
+					out = append(out, c.Src(r))
+				}
+				return true
+			})
+		}
+		return out
+	}
+	custom["server_read"] = returns(c.Func("mcp", "Server", "receivingMethodInfos"))
+	custom["session_read"] = returns(c.Func("mcp", "ServerSession", "receivingMethodInfos"))
+	var httpReads []map[string]any
+	if fd := c.Func("mcp", "streamableServerConn", "servePOST"); fd != nil {
+		var walk func(n ast.Node, inLoop bool)
+		walk = func(n ast.Node, inLoop bool) {
+			ast.Inspect(n, func(m ast.Node) bool {
+				if m == nil || m == n {
+					return true
+				}
+				switch x := m.(type) {
+				case *ast.RangeStmt:
+					walk(x.Body, true)
+					return false
+				case *ast.ForStmt:
+					walk(x.Body, true)
+					return false
+				case *ast.CallExpr:
+					if strings.HasSuffix(c.Src(x.Fun), "receivingMethodInfos") {
+						httpReads = append(httpReads, map[string]any{"call": c.Src(x), "in_loop": inLoop})
+					}
+				}
+				return true
+			})
+		}
+		walk(fd.Body, false)
+	} else {
+		g.errf("streamableServerConn.servePOST not found")
+	}
+	custom["http_prevalidation_reads"] = httpReads
+	c.Fact("gate.custom_table", custom)
+
 	// ---- versions
 	var versions []string
 	if cl, ok := c.ValueExpr("mcp", "supportedProtocolVersions").(*ast.CompositeLit); ok {
